@@ -17,7 +17,9 @@ EXTENDS MastDiffOps
 
 CONSTANTS NK, NV, MaxLayer, MaxH,
           PushNilRoot,   \* TRUE: the pinned release pushes a nil top link as an item (non-vacuity run)
-          Stepwise
+          Stepwise,
+          MaxG,          \* the duplicate check whose Load fails once ranges over 0..MaxG (0 = no failure)
+          Swallow        \* TRUE: the behaviour before fix e203d09 (non-vacuity run)
 
 Keys == 1..NK
 Vals == 1..NV
@@ -37,7 +39,7 @@ Init == /\ layer \in [Keys -> 0..MaxLayer]
         /\ ho \in 0..MaxH /\ hn \in 0..MaxH
         /\ hasOld \in BOOLEAN /\ (~hasOld => (mo = <<>> /\ ho = 0))
         /\ sc \in BOOLEAN
-        /\ ds = InitDS(Canon(SortedPairs(mo), layer, ho), Canon(SortedPairs(mn), layer, hn), hasOld, PushNilRoot)
+        /\ \E g \in 0..MaxG : ds = InitDSF(Canon(SortedPairs(mo), layer, ho), Canon(SortedPairs(mn), layer, hn), hasOld, PushNilRoot, g, Swallow)
 Next == /\ ~ds.done
         /\ ds' = IF Stepwise THEN Step(ds, layer, sc) ELSE Run(ds, layer, sc)
         /\ UNCHANGED <<layer, mo, mn, ho, hn, hasOld, sc>>
@@ -49,14 +51,15 @@ DD == Cardinality((OldReach \ ReachT(new)) \cup (ReachT(new) \ OldReach))
 
 \* C06, in every intermediate state: what has been reported so far is a prefix of the exact difference
 \* (so a diff stopped after any number of callbacks has reported exactly the first differences, in order)
-EntryPrefix == ~ds.err /\ IsPrefix(Real(ds.out), ModelDiff(MO, mn))
-EntryDiffExact == ds.done => Real(ds.out) = ModelDiff(MO, mn)
+EntryPrefix == (ds.g = 0 => ~ds.err) /\ (~ds.err => IsPrefix(Real(ds.out), ModelDiff(MO, mn)))
+EntryDiffExact == (ds.done /\ ~ds.err) => Real(ds.out) = ModelDiff(MO, mn)
 \* C07
 LinksWithin == /\ ToSet(ds.added) \subseteq ReachT(new) /\ ToSet(ds.removed) \subseteq OldReach
                /\ Cardinality(ToSet(ds.added)) = Len(ds.added) /\ Cardinality(ToSet(ds.removed)) = Len(ds.removed)
-LinksComplete == ds.done => /\ (ReachT(new) \ OldReach) \subseteq ToSet(ds.added)
+LinksComplete == (ds.done /\ ~ds.err) => /\ (ReachT(new) \ OldReach) \subseteq ToSet(ds.added)
                             /\ (OldReach \ ReachT(new)) \subseteq ToSet(ds.removed)
 \* C15 (persisted versions: names compare equal, Shortcut)
+\* (a diff that a failing Load ends with an error has reported a prefix; one that goes on must still report every node once)
 ReadBound == sc => Cardinality(ds.loads) <= 2 * DD + 2
 SameNoLoads == (sc /\ hasOld /\ old = new) => ds.loads = {}
 Terminates == <>(ds.done)
